@@ -1,14 +1,45 @@
 (* C02 - object keys are a deterministic tree hash of the content.
-   Statements only; proofs are in Proofs/CafsWriter.v and Proofs/CafsStore.v. *)
+   Statements only; proofs are in Proofs/CafsWriter.v and Proofs/CafsPut.v. *)
 From Coq Require Import List NArith Arith Bool.
-From DM Require Import Model.Cafs Proofs.CafsWriter.
+From DM Require Import Model.Cafs Proofs.CafsWriter Proofs.CafsStore Proofs.CafsPut.
 Import ListNotations.
 
 (* The key returned by Put is tree_key of the content: a function of the content and the leaf
    size only - for every chunking of the source and every prior store content. *)
 Theorem C02_key_function : forall H L, 0 < L -> forall chunks s,
-  exists r, put H L chunks s = Ok r /\ pr_key r = tree_key H L (concat chunks).
-Proof.
-  intros H L HL chunks s. destruct (put_key H L HL chunks s) as [r [E [_ [K _]]]]. exists r. auto.
-Qed.
+  exists r, put H L chunks s = Ok r /\
+    pr_written r = length (concat chunks) /\
+    pr_key r = tree_key H L (concat chunks) /\
+    pr_keys r = keys_of_leaves H L 0 (split_leaves L (concat chunks)).
+Proof. exact put_key. Qed.
 Print Assumptions C02_key_function.
+
+(* Storing content the store already holds returns the same key, reports a duplicate and changes
+   no blob. *)
+Theorem C02_duplicate : forall H L, 0 < L -> (forall l o d b x, length (H l o d b x) = KS) ->
+  forall chunks s r,
+  holds H L s (concat chunks) -> put H L chunks s = Ok r ->
+  pr_found r = true /\ (forall k, lookup k (pr_store r) = lookup k s) /\ pr_key r = tree_key H L (concat chunks).
+Proof. exact put_duplicate. Qed.
+Print Assumptions C02_duplicate.
+
+(* No Put ever changes a non-empty blob that is already in the store - whatever it belongs to,
+   shared leaves included (no hash assumption needed). *)
+Theorem C02_others_intact : forall H L, 0 < L -> forall chunks s r k x b,
+  put H L chunks s = Ok r -> lookup k s = Some (x :: b) -> lookup k (pr_store r) = Some (x :: b).
+Proof. exact put_keeps_blobs. Qed.
+Print Assumptions C02_others_intact.
+
+(* Different contents get different keys, when no input collides with an honest input of the first. *)
+Theorem C02_injective : forall H L, 0 < L -> (forall l o d b x, length (H l o d b x) = KS) ->
+  forall c1 c2, nocoll H L (split_leaves L c1) -> tree_key H L c1 = tree_key H L c2 -> c1 = c2.
+Proof. exact tree_key_injective. Qed.
+Print Assumptions C02_injective.
+
+(* After a Put into a clean store the store holds the object. *)
+Theorem C02_put_holds : forall H L, 0 < L -> forall chunks s r,
+  nocoll H L (split_leaves L (concat chunks)) ->
+  clean s (blob_writes H L (split_leaves L (concat chunks))) ->
+  put H L chunks s = Ok r -> holds H L (pr_store r) (concat chunks).
+Proof. exact put_holds. Qed.
+Print Assumptions C02_put_holds.
